@@ -1,0 +1,29 @@
+//go:build verif
+
+package metadatapb
+
+// Machine-checked contracts for this package (comment-only; excluded from normal builds).
+
+//@ property C07
+//@ pure func mdOf(m) = cast(m, *traits.Metadata)
+//@ pure func isMD(m) = istype(m, *traits.Metadata) && cast(m, *traits.Metadata) != nil
+//@
+//@ // merging one trait entry into a list never leaves the list's own storage unless it has to grow
+//@ func mergeTraitMetadata(tmds, tmd) (res)
+//@   option only post inv
+//@   ensures [own-list-stays-own] (isnil(tmds) || fresh(tmds)) ==> fresh(res)
+//@   loop 0 (k):
+//@     invariant 0 <= k && k <= len(tmds)
+//@
+//@ // Ownership rule for the merge interceptor, which receives the live stored message as old ("do not write to the old
+//@ // value", resource/opt.go): the trait list it builds for the new value is storage of its own, never the stored
+//@ // message's list (which the merge and the final sort would then edit in place).
+//@ func metadataMergeInterceptor(o, n)
+//@   option only post inv
+//@   requires isMD(o) && isMD(n) && mdOf(o) != mdOf(n)
+//@   ensures [own-list] len(mdOf(n).Traits) > 0 ==> fresh(mdOf(n).Traits)
+//@   replay MetadataOldValueIntact()
+//@   loop 0 (k):
+//@     invariant 0 <= k && k <= len(oldVal.Traits) && fresh(newVal.Traits) && len(newVal.Traits) == len(oldVal.Traits)
+//@   loop 1 (k):
+//@     invariant 0 <= k && k <= len(cleanTraits) && (isnil(newVal.Traits) || fresh(newVal.Traits))
